@@ -238,8 +238,11 @@ func Cmp(ei, ej Object) int {
 	case QUOTE: // quoted code compares by its (normalized) source text.
 		return cmp.Compare(ei.(Quote).Inspect(), ej.(Quote).Inspect())
 
-	// RETURN, MACRO, ANY aren't expected to be compared.
-	case RETURN, MACRO, UNKNOWN, ANY:
+	case MACRO: // visible as values inside macro bodies; compared like quotes, by their source text.
+		return cmp.Compare(ei.Inspect(), ej.Inspect())
+
+	// RETURN, ANY aren't expected to be compared.
+	case RETURN, UNKNOWN, ANY:
 		panic(fmt.Sprintf("Unexpected type in Cmp: %s", ti))
 	}
 	return 1
